@@ -354,8 +354,11 @@ int main(int argc, char **argv) {
   // confirm the shrunk failure three times in fresh children
   bool violation = false; std::string verdict = "none";
   if (!ok && failing) {
-    int f = 0; for (int r = 0; r < 3; r++) { Outcome o = evaluate(fail_tape, 60); if ((o.kind == Outcome::FAIL && o.signature == fail_out.signature) || (o.kind == Outcome::TIMEOUT && fail_out.signature == "hang")) f++; }
-    violation = (f == 3); verdict = violation ? "confirmed" : "flaky";
+    // A memory error may be reported at another access when the same case runs in a child of a parent with a different heap history, so
+    // the three confirmations count any failure that is not a listed finding; the signature they agree on is the one reported.
+    int f = 0, known3 = 0; Outcome last; for (int r = 0; r < 3; r++) { Outcome o = evaluate(fail_tape, 60); if (o.kind == Outcome::FAIL && match_known(o)) known3++; else if (o.kind == Outcome::FAIL || (o.kind == Outcome::TIMEOUT && fail_out.signature == "hang")) { f++; if (o.kind == Outcome::FAIL) last = o; } }
+    violation = (f == 3); verdict = violation ? "confirmed" : known3 == 3 ? "known" : "flaky";
+    if (violation && last.kind == Outcome::FAIL && last.signature != fail_out.signature) { last.msg = "(first seen as " + fail_out.signature + ") " + last.msg; fail_out = last; }
     if (!failout.empty()) write_replay(failout, fail_tape, seed, fail_out.signature, fail_desc, fail_out.msg);
   }
   double wall = now_s() - t0;
